@@ -141,6 +141,17 @@ fn run_scenario<W: Write>(name: &str, sink: W) -> (Result<(), String>, Option<us
             let w = GenericDatumWriter::builder(&s).maybe_target_block_size(if name == "ser-buffered" { Some(4) } else { None }).build().unwrap();
             match w.write_ser(&mut sink, &msg()) { Ok(n) => (Ok(()), Some(n)), Err(e) => (Err(e.to_string()), None) }
         }
+        "ser-out-of-order" => {
+            // the struct hands its fields over in another order than the schema lists them: the serializer holds
+            // `c` and `b` back until `a` has been written, then emits them - also that must reach the sink completely
+            #[derive(serde::Serialize)]
+            struct Swapped { c: String, b: Vec<i64>, a: i64, d: String }
+            let s = Schema::parse_str(r#"{"type":"record","name":"Swapped","fields":[{"name":"a","type":"long"},
+                {"name":"b","type":{"type":"array","items":"long"}},{"name":"c","type":"string"},{"name":"d","type":"string"}]}"#).unwrap();
+            let w = GenericDatumWriter::builder(&s).build().unwrap();
+            let v = Swapped { c: "a held-back string of some length".into(), b: vec![1, -2, 300000], a: 7, d: "tail".into() };
+            match w.write_ser(&mut sink, &v) { Ok(n) => (Ok(()), Some(n)), Err(e) => (Err(e.to_string()), None) }
+        }
         "single-generic" => {
             let mut w = GenericSingleObjectWriter::new_with_capacity(&kschema, 64).unwrap();
             match w.write_value_ref(&kitchen_value(), &mut sink) { Ok(n) => (Ok(()), Some(n)), Err(e) => (Err(e.to_string()), None) }
@@ -199,7 +210,7 @@ fn run_scenario<W: Write>(name: &str, sink: W) -> (Result<(), String>, Option<us
 
 // (container files with a codec or user metadata have a header whose map entry order varies from run to run,
 // so their bytes are not comparable with a reference run; the null codec without metadata is deterministic)
-const SCENARIOS: [&str; 10] = ["datum-kitchen", "datum-string", "datum-unvalidated", "ser-direct", "ser-buffered", "single-generic",
+const SCENARIOS: [&str; 11] = ["datum-kitchen", "datum-string", "datum-unvalidated", "ser-direct", "ser-buffered", "ser-out-of-order", "single-generic",
     "single-generic-reuse", "single-specific-value", "single-specific-ser", "container-null"];
 
 fn one_run(id: usize, scen: &str, reference: &[u8], k: usize, rand: Option<u64>, fault: Fault, at: usize, out: &mut Box<dyn Write>) -> usize {
